@@ -135,6 +135,13 @@ func (c *client) SendRPC(rpc hrpc.Call) (msg proto.Message, err error) {
 func (c *client) getRegionAndClientForRPC(ctx context.Context, rpc hrpc.Call) (
 	hrpc.RegionClient, error) {
 	for {
+		select {
+		case <-c.done:
+			// Close is terminal, even if a region gets (re)established
+			// concurrently with it.
+			return nil, ErrClientClosed
+		default:
+		}
 		reg, err := c.getRegionForRpc(ctx, rpc)
 		if err != nil {
 			return nil, err
